@@ -1,0 +1,80 @@
+//go:build verif
+
+package werc20
+
+// Contracts for the deductive checker in /verif (comment-only; compiled only with -tags verif).
+// Property C02 "EVM execution never mints or burns the native coin" - the wrapped-coin precompile (agent V).
+// deposit() / receive / fallback: the EVM has moved contract.Value() from the caller to the precompile's address in the StateDB
+// cache before Run (vm.EVM.Call: Transfer(caller, addr, value)). Deposit must give exactly that value back in the same cache
+// (caller +value, precompile address -value: net zero) and must not touch any Cosmos-side balance, so that the write-back at
+// commit stores, for both accounts, what the bank already holds. withdraw(): an event, nothing else.
+// World variables: sdb_delta (net AddBalance/SubBalance adjustment per address, specs/c04/64_evm.spec), cstate (the Cosmos
+// state as seen by the message servers, specs/c04/63_servers.spec), the grant worlds g_*: all of them are outside `modifies`
+// unless listed, i.e. the frame obligations prove them unchanged.
+
+/*@
+alias BigInt math/big.Int
+
+// Preconditions are facts of the call sites: p.Precompile is the embedded ERC-20 precompile built by NewPrecompile, the ABI is
+// the embedded abi.json (Deposit(address indexed dst, uint256 wad) / Withdrawal(address indexed src, uint256 wad): two inputs)
+func (Precompile).createWERC20Event
+    requires wf: p.Precompile != nil && stateDB != nil && amount != nil
+    requires height: ctx_height(ctx) >= 0
+    requires abi: len(event.Inputs) >= 2
+    ensures c02_noeffect: sdb_delta == old(sdb_delta) && cstate == old(cstate)
+
+func (Precompile).EmitDepositEvent
+    requires wf: p.Precompile != nil && stateDB != nil && amount != nil
+    requires height: ctx_height(ctx) >= 0
+    requires abi: len(p.ABI.Events["Deposit"].Inputs) >= 2
+    ensures c02_noeffect: sdb_delta == old(sdb_delta) && cstate == old(cstate)
+
+func (Precompile).EmitWithdrawalEvent
+    requires wf: p.Precompile != nil && stateDB != nil && amount != nil
+    requires height: ctx_height(ctx) >= 0
+    requires abi: len(p.ABI.Events["Withdrawal"].Inputs) >= 2
+    ensures c02_noeffect: sdb_delta == old(sdb_delta) && cstate == old(cstate)
+
+func (Precompile).Deposit
+    let caller = old(contract.CallerAddress)
+    let self = contract_self(contract)
+    let v = old(*contract.value)
+    let d1 = upd(old(sdb_delta), caller, old(sdb_delta)[caller] + v)
+    // Run: contract non-nil; `value`: the frame was entered by CALL / CALLCODE, which pass a non-nil value (DELEGATECALL passes nil)
+    requires wf: contract != nil && p.Precompile != nil && stateDB != nil
+    requires value: contract.value != nil
+    requires height: ctx_height(ctx) >= 0
+    requires abi: len(p.ABI.Events["Deposit"].Inputs) >= 2
+    modifies sdb_delta
+    // C02: the received value goes back to the caller in the EVM cache, from the precompile's own address, exactly once ...
+    ensures c02_mirrored: result.1 == nil ==> sdb_delta == upd(d1, self, d1[self] - v)
+    // ... which is a net change of zero over all addresses, and of zero for each address when caller == self
+    ensures c02_netzero: result.1 == nil && caller != self ==> sdb_delta[caller] + sdb_delta[self] == old(sdb_delta)[caller] + old(sdb_delta)[self]
+    ensures c02_self: result.1 == nil && caller == self ==> sdb_delta == old(sdb_delta)
+    ensures c02_others: forall a Address :: a != caller && a != self ==> sdb_delta[a] == old(sdb_delta)[a]
+    // ... a failed call changes nothing, and the Cosmos side is never touched
+    ensures c02_failed: result.1 != nil ==> sdb_delta == old(sdb_delta)
+    ensures c02_cosmos: cstate == old(cstate)
+    ensures value_kept: *contract.value == v
+
+// withdraw(uint256): event only. args come from abi.Arguments.Unpack of withdraw(uint256 wad): one value
+func (Precompile).Withdraw
+    requires wf: contract != nil && p.Precompile != nil && stateDB != nil && len(args) >= 1
+    requires height: ctx_height(ctx) >= 0
+    requires abi: len(p.ABI.Events["Withdrawal"].Inputs) >= 2
+    requires arg: isdyn(args[0], *BigInt) ==> dyn(args[0], *BigInt) != nil
+    ensures c02_mirrored: sdb_delta == old(sdb_delta) && cstate == old(cstate)
+    ensures badarg: !isdyn(args[0], *BigInt) ==> result.1 != nil
+
+// Run: dispatch. C02 requirement at the call of Deposit: the value it refunds has really been transferred to the precompile,
+// i.e. the frame was entered by CALL (readOnly == false). vm.EVM.CallCode / DelegateCall / StaticCall run a precompile with
+// readOnly == true and transfer nothing (CallCode even passes the caller-chosen value along).
+func (Precompile).Run
+    requires wf: evm != nil && contract != nil && p.Precompile != nil
+    requires abi: len(p.ABI.Events["Deposit"].Inputs) >= 2 && len(p.ABI.Events["Withdrawal"].Inputs) >= 2
+    // vm.EVM.Call (the only caller with readOnly == false) dereferences value before anything else: non-nil
+    requires call_value: !readOnly ==> contract.value != nil
+    allow frame
+    call Deposit requires c02_value_transferred: !readOnly
+    ensures true
+@*/
